@@ -223,7 +223,8 @@ impl FnAbi {
             PassMode::Cast { tys, orig } => {
                 let slot = func_cmplr.builder.create_sized_stack_slot(StackSlotData {
                     kind: StackSlotKind::ExplicitSlot,
-                    size: orig.size(),
+                    // the value is moved in whole registers, which can be wider than the value
+                    size: orig.size().max(tys.iter().map(|ty| ty.bytes()).sum()),
                     align_shift: orig.align().trailing_zeros() as u8,
                 });
                 let mut off = 0;
@@ -276,7 +277,8 @@ impl FnAbi {
                 PassMode::Cast { tys, orig, .. } => {
                     let stack_slot = func_cmplr.builder.create_sized_stack_slot(StackSlotData {
                         kind: StackSlotKind::ExplicitSlot,
-                        size: orig.size(),
+                        // the value is moved in whole registers, which can be wider than the value
+                    size: orig.size().max(tys.iter().map(|ty| ty.bytes()).sum()),
                         align_shift: orig.align().trailing_zeros() as u8,
                     });
 
@@ -362,7 +364,8 @@ impl FnAbi {
                 PassMode::Cast { tys, orig } => {
                     let slot = func_cmplr.builder.create_sized_stack_slot(StackSlotData {
                         kind: StackSlotKind::ExplicitSlot,
-                        size: orig.size(),
+                        // the value is moved in whole registers, which can be wider than the value
+                    size: orig.size().max(tys.iter().map(|ty| ty.bytes()).sum()),
                         align_shift: orig.align().trailing_zeros() as u8,
                     });
                     let tmp_mem = MemoryLoc::from_stack(slot, 0);
